@@ -3,7 +3,7 @@ from __future__ import annotations
 
 import importlib
 
-OP_MODULES = ["contracts.c05", "contracts.c06", "contracts.c11", "contracts.c13"]
+OP_MODULES = ["contracts.c05", "contracts.c06", "contracts.c11", "contracts.c13", "contracts.c40"]
 MONITOR_MODULES = ["contracts.c26"]
 
 
@@ -77,6 +77,7 @@ FAMILIES = {
     "C30": ["tramp"],
     "C35": ["periodic"],
     "C37": ["srcfac"],
+    "C40": ["op", "resrc"],
     "C08": ["opacity"],
     "C05": ["op"],
     "C06": ["op"],
@@ -110,6 +111,8 @@ def units_for(prop, tier):
         us += forward_units(prop)
     if "class" in fams:
         us += class_units(prop)
+    if "resrc" in fams:
+        us.append({"runner": "resrc", "prop": prop, "id": "reactivex/observable/using.py::using_+finally"})
     if "srcfac" in fams:
         us.append({"runner": "srcfac", "prop": prop, "id": "reactivex/observable/::source-factories"})
     if "periodic" in fams:
